@@ -66,3 +66,41 @@ def gen_misc(info):
 
 
 GENERATORS.append(gen_misc)
+
+
+def gen_select(info):
+    """Acceptance table of the four classes' _validate_header, by exhaustive probing."""
+    from pygac.gac_klm import GACKLMReader
+    from pygac.gac_pod import GACPODReader
+    from pygac.lac_klm import LACKLMReader
+    from pygac.lac_pod import LACPODReader
+    from pygac.reader import ReaderError
+    modes = ["GHRR", "LHRR", "HRPT", "FRAC", "GHRX", "XXXX", "ghrr", "LHR1"]
+    plats = ["TN", "NA", "NB", "NC", "ND", "NE", "NF", "NG", "NH", "NI", "NJ",
+             "NK", "NL", "NM", "NN", "NP", "M1", "M2", "M3",
+             "NO", "NQ", "M4", "M0", "XX", "nl", "N1", "TK"]
+    classes = [GACKLMReader, LACKLMReader, GACPODReader, LACPODReader]
+    rows = []
+    for m in modes:
+        for p in plats:
+            name = ("NSS.%s.%s.D02187.S1904.E2058.B0921517.GC" % (m, p)).encode()
+            acc = []
+            for c in classes:
+                try:
+                    c._validate_header({"data_set_name": name})
+                    acc.append(True)
+                except ReaderError:
+                    acc.append(False)
+            rows.append((m, p, acc))
+    info["accept_table_true"] = [(m, p, a) for m, p, a in rows if any(a)]
+    out = [HEADER, "namespace PygacModel.Generated\n",
+           "def probeModes : List String := %s\n" % llist([lstr(m) for m in modes], per_line=8),
+           "def probePlats : List String := %s\n" % llist([lstr(p) for p in plats], per_line=14),
+           "/-- (mode, platform, [GACKLM, LACKLM, GACPOD, LACPOD] accepts) -/\n",
+           "def acceptTable : List (String × String × List Bool) := %s\n" % llist(
+               ["(%s, %s, [%s])" % (lstr(m), lstr(p), ", ".join(lbool(x) for x in a)) for m, p, a in rows], per_line=2),
+           "end PygacModel.Generated\n"]
+    return "Select.lean", "".join(out)
+
+
+GENERATORS.append(gen_select)
